@@ -307,7 +307,7 @@ PLANS = {
                      "D=2..5, both kernels, both profiles; distinct non-trivial = distinct Insert events that "
                      "reported Inserted (args+history tag)",
                 nontrivial=_key_event({"Insert"})),
-    "C04": dict(level="model_checking", families=[("repair", 14, 16), ("construct", 6, 16)],
+    "C04": dict(level="model_checking", families=[("verdictwalk", 14, 16), ("repair", 8, 16), ("construct", 6, 16)],
                 rule="Verdicts events on constructed, incrementally built, flipped-away and post-removal states; "
                      "distinct non-trivial = distinct Verdicts events (history tag + position)",
                 nontrivial=None),
@@ -320,7 +320,7 @@ PLANS = {
                      "(incl. out-of-range, i=j, stale, foreign) each followed by its inverse; distinct non-trivial = "
                      "distinct successful Flip events",
                 nontrivial=_key_event({"Flip"})),
-    "C08": dict(level="model_checking", families=[("repair", 14, 16)],
+    "C08": dict(level="model_checking", families=[("repairwalk", 14, 16), ("repair", 8, 16)],
                 stages=[stage_mc("MC_FlipRepair.tla", "MC_FlipRepair_gp6.cfg", workers=4),
                         stage_mc("MC_FlipRepair.tla", "MC_FlipRepair_grid6.cfg", workers=4),
                         stage_mc("MC_FlipRepair.tla", "MC_FlipRepair_3d.cfg", workers=4),
